@@ -316,6 +316,9 @@ func (s *Sim) lookupGID(gid uint64) *Slot {
 	return nil
 }
 
+// CurrentSlot returns the slot the calling goroutine is bound to (nil: none).
+func (s *Sim) CurrentSlot() *Slot { return s.lookupGID(curGID()) }
+
 // Bind makes inserted yields executed by the calling goroutine park on sl.
 func (s *Sim) Bind(sl *Slot) { s.bindGID(curGID(), sl) }
 
